@@ -99,6 +99,17 @@ var wrappers = []wrapper{
 	{"callback", func(b string, id int) string { return "hostcall(func() {\n\t" + indent(b) + "\n})" }, false},
 }
 
+var depth3Rep = map[string]bool{"if": true, "loop": true, "try-body": true, "catch-body": true, "finally-body": true, "coalesce-left": true, "func1": true, "func5": true, "deferred": true, "go": true, "callback": true}
+
+func allRep(path []int) bool {
+	for _, wi := range path {
+		if !depth3Rep[wrappers[wi].Name] {
+			return false
+		}
+	}
+	return true
+}
+
 type program struct {
 	Name  string `json:"name"`
 	Src   string `json:"src"`
@@ -154,13 +165,10 @@ func programs(thorough bool) []program {
 			return
 		}
 		for wi := range wrappers {
-			if thorough && len(path) == 2 {
-				// depth 3: one representative per wrapper family at the innermost level
-				switch wrappers[wi].Name {
-				case "if", "loop", "try-body", "catch-body", "finally-body", "coalesce-left", "func1", "func5", "deferred", "go", "callback":
-				default:
-					continue
-				}
+			if len(path) == 2 && !(depth3Rep[wrappers[wi].Name] && allRep(path)) {
+				// depth 3 is explored over one representative per wrapper family at
+				// every level; depth <= 2 over all wrappers
+				continue
 			}
 			rec(append(append([]int{}, path...), wi))
 		}
@@ -353,6 +361,9 @@ func run(c *common.Ctx) *common.Result {
 				choices := append([]int{}, r.Choices...)
 				res.Violate(common.Violation{Class: family(p) + "/" + cl, Case: p.Name + "\n" + p.Src, Detail: d + " | schedule=" + fmt.Sprint(choices),
 					Replay: replayData{Program: p, Choices: choices}})
+			}
+			if x.out.Verdict == sched.StepLimit {
+				return false // runaway program: one report is enough
 			}
 			return x.out.Verdict != sched.Stuck
 		})
